@@ -34,7 +34,7 @@ POOL = [
     ("null", "null"), ("int0", "0"), ("int1", "1"), ("intneg", "(-1)"), ("int2", "2"),
     ("i64max", "9223372036854775807"), ("i64min", "(-9223372036854775808)"), ("bigint", "(2^64)"),
     ("rational", "(1/2)"), ("float", "0.5"), ("negzero", "(-0.0)"), ("inf", "(1.0/0.0)"), ("nan", "(0.0/0.0)"), ("complex", "(1+2i)"),
-    ("emptystr", '""'), ("str", '"a"'), ("ustr", '"héllo wörld"'),
+    ("emptystr", '""'), ("str", '"a"'), ("uchar", '"é"'), ("ustr", '"héllo wörld"'),
     ("emptylist", "[]"), ("list", "[1, 2, 3]"), ("nested", "[[1, 2], [3]]"), ("mixed", '[1, "a", null]'),
     ("emptydict", "{}"), ("dict", '{1: 2, "a": [3]}'), ("defdict", "{:0}"),
     ("vector", "V(1, 2)"), ("emptybytes", "B[]"), ("badutf8", "B[255, 0, 65]"),
@@ -42,9 +42,9 @@ POOL = [
     ("builtin", "(+)"), ("closure", "(\\x -> x)"), ("type", "int"), ("instance", "Foo(1, [2])"),
 ]
 RISKY = {"i64max", "i64min", "bigint", "inf", "infstream"}
-QUICK = ["null", "int0", "intneg", "int2", "i64max", "rational", "nan", "str", "emptylist", "list", "dict", "vector", "badutf8",
+QUICK = ["null", "int0", "intneg", "int2", "i64max", "rational", "nan", "str", "uchar", "emptylist", "list", "dict", "vector", "badutf8",
          "stream", "infstream", "closure"]
-SUB3 = ["null", "int0", "intneg", "int2", "float", "str", "emptylist", "list", "dict", "stream", "closure", "i64min"]
+SUB3 = ["null", "int0", "intneg", "int2", "float", "str", "uchar", "emptylist", "list", "dict", "stream", "closure", "i64min"]
 SUB3_QUICK = ["int0", "intneg", "str", "list", "closure", "null"]
 # a lazily built result is advanced (up to 40 elements) inside the try: a stream that can only fail when consumed has not "ended with a value"
 PRE = ["struct Foo (a, b)", "force_ := \\v -> (if (v is stream) list(v take 40) else v)"] + ["p_%s := %s" % (n, s) for n, s in POOL]
@@ -124,10 +124,10 @@ def cases(tier, shard, nshards):
                 continue
             risky = any(a in RISKY for a in t)
             body = "force_(%s(%s))" % (f, ", ".join("p_" + a for a in t))
-            opts = {"step_ms": 400 if risky else 3000, "fuel": 20000, "compact": True}
+            opts = {"step_ms": 250 if risky else 3000, "fuel": 20000, "compact": True, "hang_retry": not risky}
             yield Case(wrap(body), {"k": "call", "fn": f, "args": list(t), "risky": risky}, pre=PRE, opts=opts)
     tpool = QUICK if tier == "quick" else [n for n in names if n not in ("negzero", "emptybytes", "defdict", "emptystream", "builtin")]
-    t3 = SUB3_QUICK + ["i64max", "dict"] if tier == "quick" else SUB3 + ["i64max", "bigint", "vector", "badutf8"]
+    t3 = SUB3_QUICK + ["i64max", "dict", "uchar", "ustr"] if tier == "quick" else SUB3 + ["i64max", "bigint", "vector", "badutf8", "ustr"]
     for (name, tpl, holes) in TEMPLATES:
         vals = tpool if holes <= 2 else t3
         for t in itertools.product(vals, repeat=holes):
@@ -137,7 +137,7 @@ def cases(tier, shard, nshards):
             fill = dict(zip("ABC", ["p_" + a for a in t]))
             body = tpl.format(**fill)
             risky = any(a in RISKY for a in t)
-            opts = {"step_ms": 400 if risky else 3000, "fuel": 20000, "compact": True}
+            opts = {"step_ms": 250 if risky else 3000, "fuel": 20000, "compact": True, "hang_retry": not risky}
             yield Case(wrap(body), {"k": "stmt", "fn": name, "args": list(t), "risky": risky}, pre=PRE, opts=opts)
 
 
